@@ -58,9 +58,12 @@ def apply_rewrites(text, rewrites, log, where):
 def apply_inserts(text, inserts, log, where, probe_labels=frozenset()):
     for ins in inserts:
         if getattr(ins, "finding", None) and ("guard:" + ins.finding) in probe_labels:
-            # locate the anchor anyway (a lost anchor must be noticed), but insert nothing
-            if text.find(ins.anchor) < 0:
-                raise Undecided("%s: insert anchor %r not found" % (where, ins.anchor))
+            continue
+        if getattr(ins, "finding", None) and text.find(ins.anchor) < 0:
+            # the statement a known-finding guard was attached to is gone or re-shaped: no guard is inserted and
+            # the verifier decides; if the finding's own obligation then resurfaces it is reported as undecided
+            log.append({"item": where, "rule": ins.rule, "anchor": ins.anchor, "lost_guard": ins.finding,
+                        "why": "guard anchor of known finding %s not found; nothing inserted" % ins.finding})
             continue
         pos = -1
         start = 0
